@@ -111,7 +111,32 @@ type ObservedRec struct {
 type Worker struct {
 	eng    *Engine
 	solver *Solver
+	cross  []*Solver // thorough tier: z3 5.1.0 and cvc5 re-decide every verdict query
 	id     int
+}
+
+type crossStats struct {
+	checked, agreed, disagreed, unknown int64
+	modelsValidated, modelBad          int64
+}
+
+var xstats crossStats
+
+// crossCheck re-decides a verdict query on the other installed solvers.
+func (w *Worker) crossCheck(conj []*Term, res int, what string) {
+	for _, xs := range w.cross {
+		r := xs.CheckOnly(conj)
+		atomic.AddInt64(&xstats.checked, 1)
+		switch {
+		case r == ResUnknown:
+			atomic.AddInt64(&xstats.unknown, 1)
+		case r == res:
+			atomic.AddInt64(&xstats.agreed, 1)
+		default:
+			atomic.AddInt64(&xstats.disagreed, 1)
+			w.eng.noteInconclusive(fmt.Sprintf("solver disagreement on %s: z3 4.8.12 says %d, %s says %d", what, res, xs.name, r))
+		}
+	}
 }
 
 func (w *Worker) push(s *State) {
@@ -387,6 +412,14 @@ func (e *Engine) runHarness(fn *ssa.Function, timeout time.Duration) *RunResult 
 			}
 			w.solver = sv
 			defer sv.Close()
+			if e.tier == 1 && os.Getenv("SYMGO_NOCROSS") == "" {
+				for _, k := range []string{"z3-new", "cvc5"} {
+					if xs, err := newSolver(k); err == nil {
+						w.cross = append(w.cross, xs)
+						defer xs.Close()
+					}
+				}
+			}
 			for {
 				e.mu.Lock()
 				for len(e.stack) == 0 && e.active > 0 {
